@@ -85,6 +85,30 @@ func (c *ChoquetIntegralBiasListener) Merge(params model.MethodParameters, addit
 	oldParams := params.(choquetParams)
 	newParams := addition.(choquetParams)
 	resultWeights := oldParams.weights.Merge(newParams.weights)
-	resultCriteria := append(*oldParams.criteria, *newParams.criteria...)
+	resultCriteria := make(model.Criteria, 0, len(*oldParams.criteria)+len(*newParams.criteria))
+	resultCriteria = append(append(resultCriteria, *oldParams.criteria...), *newParams.criteria...)
+	completeUnionsWithAddedCriteria(resultWeights, &resultCriteria, newParams.criteria)
 	return choquetParams{weights: resultWeights, criteria: &resultCriteria}
+}
+
+// The addition may have been evaluated for other criteria than those it is merged into (biases pass
+// the original parameters to OnCriterionAdded). A union it does not cover gets - like in OnCriterionAdded -
+// the weight of the same union without the added criteria.
+func completeUnionsWithAddedCriteria(weights *model.Weights, criteria, added *model.Criteria) {
+	for _, union := range *PowerSet(*criteria.Names()) {
+		key := criterionKey(&union)
+		if _, ok := (*weights)[key]; ok {
+			continue
+		}
+		withoutAdded := make([]string, 0, len(union))
+		for _, c := range union {
+			if !utils.ContainsString(added.Names(), &c) {
+				withoutAdded = append(withoutAdded, c)
+			}
+		}
+		if len(withoutAdded) == 0 || len(withoutAdded) == len(union) {
+			continue
+		}
+		(*weights)[key] = getWeightForCriteriaUnion(&withoutAdded, weights)
+	}
 }
